@@ -33,7 +33,7 @@ def evaluate(m, attr, pvals):
     if isinstance(attr, ca.MX):
         f = ca.Function("a", [v.symbol for v in m.parameters], [attr], {"allow_free": True})
         if f.has_free():
-            return None
+            return "free:%s" % f.get_free()
         return np.array(f(*pvals), dtype=float)
     try:
         return np.array(ca.DM(attr), dtype=float)
@@ -83,8 +83,10 @@ def judge(key):
                 for a in ("min", "max", "start", "nominal"):
                     whole = evaluate(m0, getattr(v, a), pv0)
                     got = evaluate(m1, getattr(new[en], a), pv1)
-                    if whole is None or got is None:
-                        continue
+                    if isinstance(whole, str):
+                        continue            # not a function of the parameters in the unexpanded model either (constants)
+                    if isinstance(got, str):
+                        return "%s.%s refers to %s, which is no parameter of the expanded model" % (en, a, got[5:])
                     if whole.size == 1:
                         want = float(whole.reshape(-1)[0])
                     else:
